@@ -245,6 +245,9 @@ structure Env where
   /-- `persistent_processes`: processes started through `start_process` (the REPL's process, the main
   process of `quiv run`): a successful result of such a process means "sleeping until resumed" -/
   persistent : List Pid := []
+  /-- `exited_processes` (repair of F10): processes whose `ProcessExited` has been handled. They own
+  nothing: what they owned was closed then, what is handed to them later is closed on arrival. -/
+  exited : List Pid := []
   backend : Backend := {}
   out : List Cmd := []
   faults : List Fault := []
@@ -300,13 +303,6 @@ def handleCompletions (s : Env) (n : Nat) : Env :=
   let (b', cs) := s.backend.processCompletions n
   handleCompletionsList { s with backend := b' } cs
 
-/-- `handle_deliver(target, message, _)`: transfer first, then route. -/
-def handleDeliver (s : Env) (target : Pid) (msg : Val) : Env :=
-  let s := { s with owner := transfer s.owner msg target }
-  match routeGet s.router target with
-  | none => { s with faults := s.faults ++ [.processNotFound target] }
-  | some _ => { s with out := s.out ++ [.deliverMessage target] }
-
 /-- The co-location rule of `handle_spawn`: the first *top-level* resource among captures ++
 [argument] whose owner is known and routed decides the worker; otherwise round-robin. -/
 def colocate (m : Own) (router : List (Pid × Wid)) : List Val → Option Wid
@@ -355,6 +351,21 @@ def cleanupProcessResources (s : Env) (p : Pid) : Env :=
   let rs := ownedBy s.owner p
   { s with backend := closeAll s.backend rs, owner := eraseAll s.owner rs }
 
+/-- `handle_deliver(target, message, _)`: transfer first; if the target has already terminated
+(`exited_processes`, repair of F10b) what the message carries is closed at once; then route. -/
+def handleDeliver (s : Env) (target : Pid) (msg : Val) : Env :=
+  let s : Env := { s with owner := transfer s.owner msg target }
+  let s : Env := if s.exited.contains target then cleanupProcessResources s target else s
+  match routeGet s.router target with
+  | none => { s with faults := s.faults ++ [.processNotFound target] }
+  | some _ => { s with out := s.out ++ [.deliverMessage target] }
+
+/-- `handle_process_exited(process_id)` (repair of F10): the worker reports the termination of
+every process, awaited or not (a persistent process that merely went to sleep is not reported);
+everything it still owns is closed now. -/
+def handleProcessExited (s : Env) (p : Pid) : Env :=
+  cleanupProcessResources { s with exited := p :: s.exited } p
+
 /-- One entry of a `ProcessResultsMap`: `None` / `Some(Ok(_))` / `Some(Err(_))`. -/
 inductive Rep where
   | pending
@@ -390,7 +401,9 @@ def handleProcessResultsOld (s : Env) (rs : List (Pid × Rep)) : Env :=
 
 /-! ## Histories -/
 
-/-- What the environment sees, plus `terminate` (a worker-side fact the environment does not see).
+/-- What the environment sees, plus `terminate` (a worker-side fact the environment does not see;
+since the repair of F10 the worker then emits `ProcessExited`, which the environment handles as the
+event `exited`).
 `send`'s sender and `results`' awaiter are ghosts: `DeliverAction` carries only the target and the
 cleanup in `handle_process_results` does not look at the awaiter. -/
 inductive Event where
@@ -400,6 +413,7 @@ inductive Event where
   | send (sender target : Pid) (msg : Val)
   | spawn (caller : Pid) (captures : List Val) (argument : Val)
   | terminate (p : Pid)
+  | exited (p : Pid)
   | results (awaiter : Pid) (rs : List (Pid × Rep))
   deriving Repr, Inhabited
 
@@ -428,6 +442,7 @@ def step (s : Sys) : Event → Sys
   | .send _ target msg => { s with env := handleDeliver s.env target msg }
   | .spawn caller caps arg => { s with env := handleSpawn s.env caller caps arg }
   | .terminate p => { s with terminated := p :: s.terminated }
+  | .exited p => { s with env := handleProcessExited s.env p }
   | .results _ rs =>
     { s with env := handleProcessResults s.env rs, reported := reportedOf rs ++ s.reported }
 
@@ -453,12 +468,16 @@ def handlesExist (s : Sys) : Event → Bool
 /-- A terminated process emits nothing; a worker reports `Some(result)` only for a process whose
 body has finished, or — `query_and_await` treats `Sleeping` like `Completed` — `Some(Ok(_))` for a
 persistent process that sleeps between two resumptions. For a persistent process "terminated" means
-failed (it can never be resumed); a sleeping one is alive. -/
+failed (it can never be resumed); a sleeping one is alive. A process terminates only once, exists,
+and is not waiting for an effect; `ProcessExited` is sent only for a terminated process. -/
 def livenessOk (s : Sys) : Event → Bool
   | .request p _ _ => !s.terminated.contains p
   | .send p _ _ => !s.terminated.contains p
   | .spawn p _ _ => !s.terminated.contains p
-  | .terminate p => !s.terminated.contains p
+  | .terminate p =>
+    !s.terminated.contains p && decide (p < s.env.nextPid) &&
+      !(s.env.backend.pending.map (·.1)).contains p
+  | .exited p => s.terminated.contains p
   | .results _ rs =>
     rs.all fun x => x.2 == .pending || s.terminated.contains x.1 ||
       (s.env.persistent.contains x.1 && x.2 == .ok)
